@@ -5,7 +5,9 @@ and reverts.  A mutant is 'killed' if the check exits 1 with a VIOLATION line.  
 markdown table on stdout.  Never leaves /repo modified.  usage: mutants.py [id-prefix ...]"""
 import json, os, subprocess, sys, time
 
-REPO = '/repo'
+V = os.path.dirname(os.path.dirname(os.path.abspath(__file__)))
+# a background run (vp run --with-repo) mutates its own snapshot of the repository, never /repo
+REPO = os.environ.get('VP_RUN_REPO') or os.environ.get('VERIF_REPO') or '/repo'
 M = [
  # (name, property, file, old, new)
  ('c01-rzero-no-wlock', 'C01', 'internal/common.h', '#define MU_RZERO_TO_ACQUIRE (MU_WLOCK | MU_WRITER_WAITING | MU_LONG_WAIT)', '#define MU_RZERO_TO_ACQUIRE (MU_WRITER_WAITING | MU_LONG_WAIT)'),
@@ -67,6 +69,7 @@ M = [
  ('c18-cpp-borrow', 'C18', 'platform/c++11/src/time_rep_timespec.cc', '\t\ta.tv_nsec += NSYNC_NS_IN_S_;\n\t\ta.tv_sec--;', '\t\ta.tv_nsec += NSYNC_NS_IN_S_;'),
  ('c19-note-no-null-check', 'C19', 'internal/note.c', '\tnsync_note n = (nsync_note) malloc (sizeof (*n));\n\tif (n != NULL) {', '\tnsync_note n = (nsync_note) malloc (sizeof (*n));\n\tif (1) {'),
  ('c19-counter-memset-first', 'C19', 'internal/counter.c', '\tnsync_counter c = (nsync_counter) malloc (sizeof (*c));\n\tif (c != NULL) {', '\tnsync_counter c = (nsync_counter) malloc (sizeof (*c));\n\tmemset ((void *) c, 0, sizeof (*c));\n\tif (c != NULL) {'),
+ ('c15-timepoint-truncates', 'C15', 'platform/c++11/src/time_rep_timespec.cc', 'if (ts.tv_nsec < 0) {', 'if (0 && ts.tv_nsec < 0) {'),
  ('c15-futex-no-clamp', 'C15', 'platform/linux/src/nsync_semaphore_futex.c', 'if (ts_buf.tv_sec < 0) {', 'if (0 && ts_buf.tv_sec < 0) {'),
 ]
 
@@ -91,7 +94,7 @@ def main():
         open(full, 'w').write(src.replace(old, new, 1))
         t0 = time.time()
         try:
-            r = sh(f'timeout 1500 python3 /verif/tools/check.py {prop} --tier quick', env=dict(os.environ, VERIF_SEED=os.environ.get('VERIF_SEED', '1')))
+            r = sh(f'timeout 1500 python3 {V}/tools/check.py {prop} --tier quick', env=dict(os.environ, VERIF_REPO=REPO, VERIF_SEED=os.environ.get('VERIF_SEED', '1')))
         finally:
             open(full, 'w').write(src)
         dt = time.time() - t0
@@ -103,8 +106,8 @@ def main():
         results.append(dict(name=name, prop=prop, status=status, seconds=round(dt, 1), first=sig))
         print(f'{name:40s} {prop} {status:10s} {dt:6.1f}s  {sig}', flush=True)
     sh(f'git -C {REPO} checkout -- .')
-    os.makedirs('/verif/work', exist_ok=True)
-    json.dump(results, open('/verif/work/mutants.json', 'w'), indent=1)
+    os.makedirs(f'{V}/work', exist_ok=True)
+    json.dump(results, open(f'{V}/work/mutants.json', 'w'), indent=1)
     k = sum(1 for r in results if r['status'] == 'killed'); n = sum(1 for r in results if r['status'] in ('killed', 'survived'))
     print(f'killed {k} of {n}')
     return 0
